@@ -1152,7 +1152,7 @@ const fn m(key: &'static str, val: &'static str, role: Role, tag: &'static str) 
 	M { key, val, role, tag }
 }
 
-static ALPHA: [M<'static>; 26] = [
+static ALPHA: [M<'static>; 28] = [
 	m("jsonrpc", "\"2.0\"", Role::JGood, "jsonrpc=2.0"),
 	m("jsonrpc", "null", Role::JGood, "jsonrpc=null"),
 	m("jsonrpc", "\"1.0\"", Role::JBad, "jsonrpc=1.0"),
@@ -1179,6 +1179,9 @@ static ALPHA: [M<'static>; 26] = [
 	m("method", "\"m\"", Role::Unknown, "unknown"),
 	m("params", "{\"id\":9,\"result\":8,\"error\":null,\"jsonrpc\":\"1.0\"}", Role::Unknown, "unknown"),
 	m("ID", "3", Role::Unknown, "unknown"),
+	// the same version string spelled with JSON escapes (not borrowable from the input text)
+	m("jsonrpc", "\"2\\u002e0\"", Role::JGood, "jsonrpc=2.0-escaped"),
+	m("jsonrpc", "\"\\u0032.\\u0030\"", Role::JGood, "jsonrpc=2.0-escaped"),
 ];
 
 /// Unknown members whose values are extreme for a JSON reader that builds them instead of skipping them: nesting around
@@ -1321,7 +1324,7 @@ fn id_as_value(id: &Id<'_>) -> Value {
 
 /// Parse `text` as `Response<T>` and judge the verdict (and, when accepted, the content) against the oracle.
 /// Returns whether the parser accepted.
-fn judge<T: Payload>(text: &str, seq: &[M<'_>], tname: &str, sink: &mut Sink) -> Option<bool> {
+fn judge<T: Payload + 'static>(text: &str, seq: &[M<'_>], tname: &str, sink: &mut Sink) -> Option<bool> {
 	let witness = || {
 		json!({"part": "predicate", "text": text, "payload_type": tname,
 			"members": seq.iter().map(|x| json!({"key": x.key, "value": x.val, "role": format!("{:?}", x.role)})).collect::<Vec<_>>()})
@@ -1377,6 +1380,22 @@ fn judge<T: Payload>(text: &str, seq: &[M<'_>], tname: &str, sink: &mut Sink) ->
 					}
 				}
 				_ => sink.push(format!("parser-wrong-value/payload-kind/{}", pm.tag), "result/error confused".into(), witness),
+			}
+			// conversion to an owned value must not change the value: same serialisation before and after
+			let before = serde_json::to_string(&resp).unwrap_or_default();
+			let after = serde_json::to_string(&resp.into_owned()).unwrap_or_default();
+			if before != after {
+				sink.push(format!("into-owned-changes-value/{}", shape(seq)), format!("parsed: {before}; after into_owned(): {after}"), witness);
+			}
+			// the same document as a serde_json::Value tree (a deserializer that cannot lend strings) gets the same verdict
+			let keys: Vec<&str> = seq.iter().map(|x| x.key).collect();
+			let no_dup_keys = keys.iter().enumerate().all(|(i, k)| !keys[..i].contains(k));
+			if no_dup_keys {
+				if let Ok(tree) = serde_json::from_str::<Value>(text) {
+					if let Err(e) = <Response<T> as Deserialize>::deserialize(tree) {
+						sink.push(format!("parser-rejects-valid/from-value/{}", shape(seq)), format!("accepted from text but refused from the equivalent Value tree: {e}"), witness);
+					}
+				}
 			}
 			Some(true)
 		}
